@@ -415,6 +415,7 @@ def pattern_once(S, pm, rule, inst):
             S.bad(rule, inst + '-pattern-paths', 'too many conditions around pattern emission to enumerate', es_[0].site)
             ok = False
             continue
+        S.ok(rule, '%s|pattern-once|%s' % (inst, pm.hole), None) if all(n == 1 for n, d in counts.values()) else None
         for asg, (n, d) in counts.items():
             if n != 1:
                 S.bad(rule, inst + '-pattern-once',
@@ -500,6 +501,7 @@ class FieldStmts:
         for s in sites:
             atoms = S.atoms(s)
             la, lk = S.field_loop(atoms)
+            nbad0 = len(S.rep.findings)
             if la is None or lk != loop_kind:
                 S.bad(rule, label + '-loop', 'a per-field statement is emitted outside the loop over the %s fields (context: %s)' % (loop_kind, [atom_s(a) for a in atoms][:6]), s)
                 good = False
@@ -557,6 +559,9 @@ class FieldStmts:
             if extra:
                 S.bad(rule, label + '-extra-guard', 'the statement is additionally conditioned on %s: for other inputs the field is silently skipped' % [atom_s(x)[:100] for x in extra], s)
                 good = False
+            if len(S.rep.findings) == nbad0:
+                S.ok(rule, '%s|stmt|%s' % (label, s.tmpl.loc().split('/')[-1].split(':')[0] + ':' + __import__('sa.syn', fromlist=['sha']).sha(s.tmpl.text())[:6]),
+                     {'file': s.tmpl.file, 'line': s.tmpl.line, 'statement': s.tmpl.text()[:140], 'guards': [atom_s(a)[:60] for a in atoms_after_loop(atoms, L)]})
         for L in loop_ids:
             es_ = [at for s, at, l in entries if l == L]
             counts, keys = S.count_per_path(es_, L)
